@@ -874,11 +874,17 @@ func (as *AbacoSource) sampleProducers() error {
 	// Now sort the packets received into the right AbacoGroups
 	as.nchan = 0
 	as.groups = make(map[GroupIndex]*AbacoGroup)
+	var firstErr error
 	for range as.producers {
+		// Wait for every producer, also after an error: the caller closes the devices on failure,
+		// which must not happen while another producer is still being sampled.
 		results := <-sampleResults
 		now := time.Now()
 		if results.err != nil {
-			return results.err
+			if firstErr == nil {
+				firstErr = results.err
+			}
+			continue
 		}
 		// Create new AbacoGroup for each GroupIndex seen
 		for _, p := range results.allpackets {
@@ -892,6 +898,10 @@ func (as *AbacoSource) sampleProducers() error {
 			}
 		}
 		as.distributePackets(results.allpackets, now)
+	}
+
+	if firstErr != nil {
+		return firstErr
 	}
 
 	// Verify that no channel # appears in 2 groups.
